@@ -1,5 +1,6 @@
 import MW.Inv.Reach
 import MW.Staking.Query
+import MW.Staking.Effects
 import MW.Staking.Interface
 /-!
 # C17 — Queries paginate completely and the per-user request index is consistent
@@ -256,6 +257,38 @@ theorem all_requests_limit_is_prefix (s : CState) (cursor : Option Nat) (n : Nat
 example :
     let m : AMap Nat := [(1, 10), (2, 20), (3, 30)]
     pagesFrom m 1 (fun v => v != 20) 4 none = [(1, 10), (3, 30)] := by decide
+
+/-- **the per-user listing follows the life of a request**: a successful `Withdraw` removes exactly the sender's request
+for that batch from `UnstakeRequests{sender}` — the sender's other requests stay, in order — and leaves every other user's
+answer as it was.  (The monitor `closed_request_listed` evaluates the first clause on the real contract's answers.) -/
+theorem withdraw_closes_listed_request (s s' : CState) (env : Env) (info : Info) (b : Nat) (out : List SubMsg)
+    (h : withdraw s env info b = .ok (s', out)) :
+    ∃ batch, s.batches.find? b = some batch
+      ∧ (∀ r ∈ queryUnstakeRequests s' info.sender, r.batch ≠ batch.id)
+      ∧ queryUnstakeRequests s' info.sender = (queryUnstakeRequests s info.sender).filter (fun r => r.batch ≠ batch.id)
+      ∧ ∀ u, u ≠ info.sender → queryUnstakeRequests s' u = queryUnstakeRequests s u := by
+  obtain ⟨batch, _, _, _, _, hb, _, _, _, _, _, hs', _⟩ := withdraw_eff h
+  subst hs'
+  refine ⟨batch, hb, ?_, ?_, ?_⟩
+  · intro r hr
+    simp only [queryUnstakeRequests, removeReq, List.mem_filter, Bool.not_eq_true', Bool.and_eq_false_iff,
+      decide_eq_false_iff_not, decide_eq_true_eq] at hr
+    obtain ⟨⟨_, h1⟩, h2⟩ := hr
+    rcases h1 with h1 | h1
+    · exact h1
+    · exact absurd h2 h1
+  · simp only [queryUnstakeRequests, removeReq, List.filter_filter]
+    apply List.filter_congr
+    intro r _
+    by_cases hu : r.user = info.sender <;> by_cases hbb : r.batch = batch.id <;> simp [hu, hbb]
+  · intro u hu
+    simp only [queryUnstakeRequests, removeReq, List.filter_filter]
+    apply List.filter_congr
+    intro r _
+    by_cases hru : r.user = u
+    · have : r.user ≠ info.sender := by rw [hru]; exact hu
+      simp [hru, this, hu]
+    · simp [hru]
 
 /-- the queries the source declares (table regenerated from /repo's `QueryMsg` on every run) are exactly the eleven
 the model answers, with the same parameters -/
